@@ -269,6 +269,7 @@ def run(ctx):
     before, nv = len(ctx.instances), len(ctx.violations)
     p07.q1(ctx, F)
     p07.q2(ctx, F)
+    p14.flag_raised_only_by_go(ctx, F, "C14.O3")       # the timer's clear is final: nobody raises the flag again
     for i in ctx.instances[before:]:
         i["rule"] = "C13.A6(" + i["rule"] + ")"
     for v in ctx.violations[nv:]:
